@@ -358,12 +358,11 @@ func errClass(err error) string {
 	return "other"
 }
 
+// pageFlags: findPageWatermarks per page, on a validated context (validation resolves the lazily
+// decoded object-stream objects that findPageWatermarks does not dereference, see hasDoc).
 func pageFlags(pdf []byte) (string, error) {
-	ctx, err := api.ReadContext(bytes.NewReader(pdf), newConf())
+	ctx, err := api.ReadAndValidate(bytes.NewReader(pdf), newConf())
 	if err != nil {
-		return "", err
-	}
-	if err := ctx.EnsurePageCount(); err != nil {
 		return "", err
 	}
 	var b strings.Builder
@@ -401,7 +400,25 @@ func sortedCopy(l []string) []string {
 
 func sameSet(a, b []string) bool { return strings.Join(sortedCopy(a), ",") == strings.Join(sortedCopy(b), ",") }
 
-func has(pdf []byte) (bool, error) { return api.HasWatermarks(bytes.NewReader(pdf), newConf()) }
+// hasDoc: api.HasWatermarks. When it fails because a page's /Contents refers to an array stored in an
+// object stream (contentObjectForIndRef reads entry.Object without resolving types.LazyObjectStreamObject)
+// the failure is reported under its own class and DetectWatermarks is re-run on a validated context so
+// that the rest of the flow can still be compared with the model.
+func hasDoc(r *vh.Run, pdf []byte, in any) (bool, error) {
+	ok, err := api.HasWatermarks(bytes.NewReader(pdf), newConf())
+	if err == nil || !strings.Contains(err.Error(), "LazyObjectStreamObject") {
+		return ok, err
+	}
+	r.OracleFail("detect-fails-contents-array-in-object-stream", in, err.Error())
+	ctx, err := api.ReadAndValidate(bytes.NewReader(pdf), newConf())
+	if err != nil {
+		return false, err
+	}
+	if err := pdfcpu.DetectWatermarks(ctx); err != nil {
+		return false, err
+	}
+	return ctx.Watermarked, nil
+}
 
 func apiFlow(r *vh.Run, idx int) {
 	nPages := 1 + r.Rand.Intn(4)
@@ -430,7 +447,7 @@ func apiFlow(r *vh.Run, idx int) {
 	for _, p := range orig {
 		r.Count(fmt.Sprintf("api-page:kind=%d,streams=%d,ownres=%v", p.Kind, len(p.Streams), p.OwnRes))
 	}
-	has0, err := has(pdf)
+	has0, err := hasDoc(r, pdf, in)
 	if err != nil || has0 {
 		r.OracleFail("detect-on-clean-document", in, fmt.Sprintf("has=%v err=%v", has0, err))
 	} else {
@@ -450,7 +467,7 @@ func apiFlow(r *vh.Run, idx int) {
 		r.OracleFail("add-output-unreadable", in, fmt.Sprint(err))
 		return
 	}
-	has1, err := has(added.Bytes())
+	has1, err := hasDoc(r, added.Bytes(), in)
 	if err != nil || !has1 {
 		r.OracleFail("detect-misses-added-watermark", in, fmt.Sprintf("has=%v err=%v", has1, err))
 	} else {
@@ -509,7 +526,7 @@ func apiFlow(r *vh.Run, idx int) {
 			r.OracleFail("remove-output-unreadable", in2, fmt.Sprint(err))
 			return
 		}
-		has2, err := has(out.Bytes())
+		has2, err := hasDoc(r, out.Bytes(), in2)
 		flags2, err2 := pageFlags(out.Bytes())
 		if err != nil || err2 != nil {
 			r.OracleFail("detect-error", in2, fmt.Sprint(err, err2))
